@@ -29,7 +29,7 @@ One input line = one history:
                                             | ["NN",nh,mac] | ["NRX",{raw attrs...}] ...]}
 One output line = {"steps":[snapshot after each event]} with
   snapshot = {"lpm":[[module,prefix,len,gate]], "mods":[[name,class,value]], "links":[[m,og,m2,ig]],
-              "nc":[[nh,gate,mac,count]], "un":[[key,prefix,len,nh,iface]], "gc":[[module,n]],
+              "nc":[[nh,gate,mac,count]], "un":[[key,[[prefix,len,nh,iface]...in arrival order]]], "gc":[[module,n]],
               "pings":[ip...] (this step), "calls":[[op,args...,errno|0]] (this step),
               "exc": text if the handler let an exception escape}
 Everything is sorted; nothing depends on time or addresses.
@@ -358,10 +358,10 @@ def snapshot(rc, w, ctl, exc):
     mods = sorted([n, m["class"], m["value"]] for n, m in w.modules.items() if m["dyn"])
     links = sorted([a, og, b, ig] for (a, og), (b, ig) in w.links.items())
     nc = sorted([k, v.gate_idx, v.mac_address, v.route_count] for k, v in ctl._neighbor_cache.items())
-    # (a repaired controller may keep several pending routes per next hop: one row each)
-    un = sorted([k, r.dest_prefix, r.prefix_len, r.next_hop_ip, r.interface]
-                for k, v in ctl._unresolved_arp_queries_cache.items()
-                for r in (v if isinstance(v, (list, tuple)) else [v]))
+    # pending cache: next hop -> the waiting routes in arrival order (a pre-1b62c73 controller keeps a single route)
+    un = sorted([k, [[r.dest_prefix, r.prefix_len, r.next_hop_ip, r.interface]
+                     for r in (v if isinstance(v, (list, tuple)) else [v])]]
+                for k, v in ctl._unresolved_arp_queries_cache.items())
     gc = sorted([k, v] for k, v in ctl._module_gate_count_cache.items())
     s = {"lpm": lpm, "mods": mods, "links": links, "nc": nc, "un": un, "gc": gc,
          "pings": w.pings, "calls": w.calls}
